@@ -24,6 +24,7 @@ MC_CFG = """CONSTANTS
   MaxPath = {maxpath}
   MaxLenUp = {maxlenup}
   MaxLenObs = {maxlenobs}
+  MaxLenSel = {maxlensel}
   SelAllMax = {selallmax}
 SPECIFICATION Spec
 INVARIANT LatticeShape
@@ -45,12 +46,14 @@ TRACE_CFG = """CONSTANTS
   MaxPath = 0
   MaxLenUp = 0
   MaxLenObs = 0
+  MaxLenSel = 0
   SelAllMax = 0
 SPECIFICATION TraceSpec
 POSTCONDITION TraceAccepted
 """
 
 SIDES = [1.0, 0.5, 2.0, 0.25, 0.1, 0.3, 1.0 / 3.0, 0.7, 1.7, 0.015625]
+LIMITS = [-1.5, -1.0, -0.7, -0.25, 0.0, 0.3, 0.5, 1.0, 1.2]
 OFFSETS = [0.0, 0.5, -1.25, 0.1, -0.3, 1.0 / 3.0, 2.7, -0.015625]
 
 
@@ -350,7 +353,7 @@ def random_instance(args):
         src = "coords"
         recs += construct_records(st, src, base, model={"c": c, "fl": fl, "w": F0, "xo": 0, "yo": 0})
     elif fam == "limits-coord":
-        lim = np.sort(rng.choice([-1.5, -1.0, -0.7, -0.25, 0.0, 0.3, 0.5, 1.0, 1.2], size=(2, 2), replace=True), axis=1)
+        lim = np.sort(np.stack([rng.choice(LIMITS, size=2, replace=False) for _ in range(2)]), axis=1)
         scale = float(rng.choice([0.5, 1.0, 0.7, 0.4, 1.5]))
         while True:
             obj = CoordinateArrayTriangles.for_limits_and_scale(float(lim[0, 0]), float(lim[0, 1]), float(lim[1, 0]), float(lim[1, 1]), scale)
@@ -363,11 +366,13 @@ def random_instance(args):
         c = np.asarray(obj.coordinates).astype(int).tolist()
         recs += construct_records(st, src, base, model={"c": c, "fl": False, "w": F0, "xo": 0, "yo": 0})
     elif fam == "limits-array":
-        lim = np.sort(rng.choice([-1.5, -1.0, -0.7, -0.25, 0.0, 0.3, 0.5, 1.0, 1.2], size=(2, 2), replace=True), axis=1)
+        lim = np.sort(np.stack([rng.choice(LIMITS, size=2, replace=False) for _ in range(2)]), axis=1)
         scale = float(rng.choice([0.5, 1.0, 0.7, 0.4, 1.5]))
         y_min, y_max, x_min, x_max = float(lim[0, 0]), float(lim[0, 1]), float(lim[1, 0]), float(lim[1, 1])
         while True:
             obj = ArrayTriangles.for_limits_and_scale(y_min, y_max, x_min, x_max, scale)
+            if np.asarray(obj.indices).size == 0:
+                return []  # limits narrower than one row of triangles: the empty set is not an input of the property
             if len(obj) <= 60:
                 break
             scale *= 2.0
@@ -448,19 +453,22 @@ def _weight(r):
     return 1 + n * n // 40
 
 
-def validate(ctx, records, tag, budget=9000):
+def validate(ctx, records, tag, per_chunk=60000, max_chunks=12):
+    """Validate records through Trace_Triangles (a few parallel TLC processes: a JVM start costs more than ~3000 records)."""
     import concurrent.futures as cf
 
     for n, r in enumerate(records):
         r["id"] = n
+    weights = [_weight(r) for r in records]
+    nch = max(1, min(max_chunks, -(-sum(weights) // per_chunk)))
+    target = sum(weights) / nch
     chunks, cur, wsum = [], [], 0
-    for r in records:
-        w = _weight(r)
-        if cur and wsum + w > budget:
-            chunks.append(cur)
-            cur, wsum = [], 0
+    for r, w in zip(records, weights):
         cur.append(r)
         wsum += w
+        if wsum >= target and len(chunks) < nch - 1:
+            chunks.append(cur)
+            cur, wsum = [], 0
     if cur:
         chunks.append(cur)
     rejects = []
@@ -505,8 +513,8 @@ def _expected_inits(fams):
     return 2 * total
 
 
-def enumerate_behaviours(ctx, fams, maxpath, maxlenup, maxlenobs, selallmax, tag="MC_Triangles", timeout=3000):
-    cfg = MC_CFG.format(maxlevel=MAXLEVEL, maxpath=maxpath, maxlenup=maxlenup, maxlenobs=maxlenobs, selallmax=selallmax)
+def enumerate_behaviours(ctx, fams, maxpath, maxlenup, maxlenobs, maxlensel, selallmax, tag="MC_Triangles", timeout=3000):
+    cfg = MC_CFG.format(maxlevel=MAXLEVEL, maxpath=maxpath, maxlenup=maxlenup, maxlenobs=maxlenobs, maxlensel=maxlensel, selallmax=selallmax)
     res = ctx.tlc("Triangles", cfg, defs=f"MCFamilies == {_tla_families(fams)}", tag=tag, timeout=timeout)
     beh = res.by_kind("beh")
     if res.init_states != _expected_inits(fams) or len(beh) != res.distinct - res.init_states:
@@ -524,15 +532,18 @@ def enumerate_behaviours(ctx, fams, maxpath, maxlenup, maxlenobs, selallmax, tag
 def run(ctx):
     quick = ctx.quick
     if quick:
-        fams, maxpath, maxlenup, maxlenobs, selallmax, nrand = [(2, 2), (1, 3)], 3, 12, 4, 4, 200
+        fams, maxpath, maxlenup, maxlenobs, maxlensel, selallmax, nrand = [(2, 1), (1, 3)], 3, 12, 4, 16, 4, 200
     else:
-        fams, maxpath, maxlenup, maxlenobs, selallmax, nrand = [(3, 3)], 3, 12, 4, 4, 3000
+        fams, maxpath, maxlenup, maxlenobs, maxlensel, selallmax, nrand = [(3, 2), (2, 3)], 3, 12, 4, 16, 4, 3000
     ctx.bounds = {"coordinate_families_(range,max_triangles)": fams, "flipped": [False, True], "up_samplings": f"0..{MAXLEVEL}",
-                  "calls_per_behaviour": maxpath, "up/nbr_on_sets_up_to": maxlenup, "containment_on_sets_up_to": maxlenobs,
+                  "calls_per_behaviour": maxpath, "up/nbr_on_sets_up_to": maxlenup, "containment_on_sets_up_to": maxlenobs, "for_indexes_on_sets_up_to": maxlensel,
                   "all_index_subsets_up_to": selallmax, "queries": "all quarter-unit lattice points strictly inside a triangle, "
                   "as Point and (by turn) Circle/Square/Polygon/Triangle", "random_instances": nrand,
                   "sides": SIDES + ["uniform(0.05,3)"], "offsets": OFFSETS + ["uniform(-3,3)"], "tolerance_fine_units": TOL}
-    groups, nbeh = enumerate_behaviours(ctx, fams, maxpath, maxlenup, maxlenobs, selallmax)
+    import time
+    t0 = time.time()
+    groups, nbeh = enumerate_behaviours(ctx, fams, maxpath, maxlenup, maxlenobs, maxlensel, selallmax)
+    t1 = time.time()
     ctx.exhaustive = True
     recs, maxres = [], 0.0
     for part, mr in core.pmap(replay_group, [(c, fl, paths, ctx.seed) for c, fl, paths in groups], chunksize=4):
@@ -548,7 +559,9 @@ def run(ctx):
             if r["api"] == want and len(json.dumps(r)) < 2500:
                 ctx.sample({k: v for k, v in r.items() if k != "path"})
                 break
+    t2 = time.time()
     validate(ctx, recs, "C20")
+    ctx.note(f"phases: TLC machine {t1 - t0:.0f}s, replay into the implementation {t2 - t1:.0f}s, trace validation {time.time() - t2:.0f}s")
     ctx.note(f"{len(groups)} initial inputs, {nbeh} behaviours replayed -> {nb} records; {nrand} random instances -> {len(recs) - nb} records; "
              f"largest lattice residual seen in the exhaustive part {maxres:.2e} fine units (tolerance {TOL})")
     ctx.assumptions = [
